@@ -284,6 +284,9 @@ var c06Data = func() *univ.Node {
 		"eim", univ.MapNode(univ.MapOf(univ.TInt, univ.TString), nil, nil),
 		"nbm", univ.NilOf(univ.MapOf(univ.TBool, univ.TInt)),
 		"eifm", univ.MapNode(univ.MapOf(univ.TIface, univ.TInt), nil, nil),
+		"ppm", univ.Ptr(univ.Ptr(univ.IfaceMap("a", univ.IfaceSlice(univ.Int(1))))),
+		"pppm", univ.Ptr(univ.Ptr(univ.Ptr(univ.MapNode(univ.MapOf(univ.TString, univ.SliceOf(univ.TInt)), []*univ.Node{univ.Str("a")}, []*univ.Node{univ.Slice(univ.SliceOf(univ.TInt), univ.Int(1))})))),
+		"lppm", univ.IfaceSlice(univ.Ptr(univ.Ptr(univ.IfaceMap("a", univ.IfaceSlice(univ.Int(1)))))),
 		"holder", univ.IfaceSlice(univ.IfaceMap("byid", univ.MapNode(univ.MapOf(univ.TInt, univ.TString), nil, nil))),
 	)
 }()
@@ -307,6 +310,8 @@ var c06Cases = []c06Case{
 	{`any big as i, x { i == 11 and x == 2 }`, "F"}, {`any bigmix as x { x == 99 }`, "E"}, {`any bigmix as x { x == 9 }`, "T"}, {`all bigmix as x { x != 9 }`, "F"}, {`all bigmix as x { x != 99 }`, "E"},
 	{`any pl as i, _ { i == 1 }`, "T"}, {`all pl as x { x == 7 }`, "E"}, {`any npl as x { n == 5 }`, "T"}, {`all npl as i, _ { i == 0 }`, "T"}, {`any pl as x { x == 7 }`, "T"}, {`all pl as i, x { i != 1 }`, "F"},
 	{`any m as x, _ { any l as x { x == 3 } }`, "T"}, {`any l as x, _ { any m as _, x { x == 2 } }`, "T"}, {`any m as x { any s as x { x == "b" } }`, "T"}, {`any l as x, _ { any s as x { x == 0 } }`, "F"},
+	{`any ppm.a as v { v == 1 }`, "T"}, {`any ppm.zz as v { v == 1 }`, "F"}, {`all ppm.zz as v { v == 1 }`, "T"}, {`any pppm.zz as v { v == 1 }`, "F"}, {`all pppm.zz as i, v { v == 1 }`, "T"}, {`all pppm.a as v { v == 1 }`, "T"},
+	{`all lppm as g { all g.zz as t { t == 1 } }`, "T"}, {`any lppm as g { any g.zz as t { t == 1 } }`, "F"}, {`any lppm as g { any g.a as t { t == 1 } }`, "T"},
 	{`any l as v { l.0 == 1 }`, "T"}, {`all l as v { x == "top" }`, "T"}, {`any l as x { any l as y { x == 1 and y == 3 } }`, "T"},
 }
 
